@@ -83,6 +83,9 @@ func runC19(cfg *config, res *monitor.Result) {
 		wantErr error
 		exact   bool // byte-exact comparison possible (no multi-entry maps)
 		desc    map[string]any
+		// ref, when set, is another object with the same contents: the expected bytes are taken from it, so that msg
+		// itself has never been sized or marshaled when EncodeNested sees it (no size cache of the owning runtime is warm)
+		ref any
 	}
 	check := func(nc nestedCase, tag int, position string) {
 		evals++
@@ -101,7 +104,13 @@ func runC19(cfg *config, res *monitor.Result) {
 		if st, ok := nc.msg.(*stubTo); ok {
 			// MarshalTo+Size only: csproto.Marshal does not support such a type, the payload is known
 			B = st.payload
-		} else if pi := monitor.Try(func() { B, berr = csproto.Marshal(nc.msg) }); pi != nil {
+		} else if pi := monitor.Try(func() {
+			if nc.ref != nil {
+				B, berr = csproto.Marshal(nc.ref)
+			} else {
+				B, berr = csproto.Marshal(nc.msg)
+			}
+		}); pi != nil {
 			return // content-level defect of the nested type, not the bridge's
 		}
 		if nc.wantErr == nil && berr != nil {
@@ -357,6 +366,12 @@ func runC19(cfg *config, res *monitor.Result) {
 				check(nestedCase{kind: kind + "+reused-destination", msg: gen, exact: !hasBigMap(c.Msg.ProtoReflect()),
 					desc: map[string]any{"package": t.pkg.GoPkg, "message": string(t.md.FullName()), "value": bridge.Text(c.Msg), "target": t, "other": other}},
 					tags[(ti+ci)%len(tags)], positions[(ti+ci+1)%len(positions)])
+			}
+			// a second object with the same contents that nobody has sized or marshaled before
+			if cold, err := build(t, c.Msg); err == nil {
+				check(nestedCase{kind: kind + "+never-sized", msg: cold, ref: gen, exact: !hasBigMap(c.Msg.ProtoReflect()),
+					desc: map[string]any{"package": t.pkg.GoPkg, "message": string(t.md.FullName()), "value": bridge.Text(c.Msg), "target": t}},
+					tags[(ti+ci)%len(tags)], positions[(ti+ci+2)%len(positions)])
 			}
 			if res.WantSample() && ci == 1 {
 				res.Sample(map[string]any{"nested_kind": kind, "package": t.pkg.GoPkg, "message": string(t.md.FullName()), "value": bridge.Text(c.Msg)})
